@@ -267,3 +267,57 @@ def run_rt(payload):
             res['error'] = f'E:{type(e).__name__}: {e}'
         out.append(res)
     return out
+
+
+# ---------------------------------------------------------------------------------------------
+# the pattern player: Pbind(...).play(clock), pause() and resume([quant]) at fractional beats
+# ---------------------------------------------------------------------------------------------
+
+def run_pat(payload):
+    """NRT.  For each step [a, b, q, p]: a conductor routine on the clock waits `a` beats, pauses the player,
+    waits `b` beats (≥ the event duration, so that the wake-up pending from before the pause is gone), reads
+    the beat, resumes the player — without a quant when q is '-' — and records the beat of the first
+    event produced after that."""
+    import sc3
+    sc3.init('nrt', 'ERROR')
+    from sc3.base.main import main
+    from sc3.base.clock import TempoClock, Quant
+    from sc3.base.stream import Routine
+    from sc3.seq.patterns.eventpatterns import Pbind
+    from sc3.seq.patterns.funcpatterns import Pfunc
+    res = []
+    for case in payload['cases']:
+        main.reset()
+        out = {'plays': []}
+        try:
+            clock = TempoClock(pf(case['tempo']))
+            seen = []
+
+            def probe(*_):
+                seen.append(clock.beats)
+                return 1
+            pat = Pbind({'probe': Pfunc(probe), 'dur': 1})
+
+            def conductor():
+                player = pat.play(clock)
+                for a, b, q, p in case['plays']:
+                    yield pf(a)
+                    player.pause()
+                    yield pf(b)
+                    before, n = clock.beats, len(seen)
+                    if q == '-':
+                        player.resume()
+                    else:
+                        player.resume(quant=Quant(pnum(q), pnum(p)))
+                    yield (1 if q == '-' else pnum(q)) + 1
+                    out['plays'].append([fr(before), fr(seen[n]) if len(seen) > n else 'none'])
+                player.stop()
+            Routine(conductor).play(clock, 0)
+            try:
+                main.process()
+            except Exception:
+                pass
+        except Exception as e:
+            out['error'] = f'{type(e).__name__}: {e}'
+        res.append(out)
+    return res
